@@ -32,6 +32,18 @@ def check_roundtrip(shp, order, mbits, quant, form):
         mask = np.ma.nomask
     else:
         mask = np.array([(mbits >> i) & 1 for i in range(n)], dtype=bool).reshape(shp)
+    if form.startswith("reused:") and mask is not np.ma.nomask:
+        # history: ONE mask array object that held another mask before (used for a round trip) and was updated in place (wetting/drying, snow cover)
+        prev = int(form.split(":")[1])
+        new = mask
+        mask = np.array([(prev >> i) & 1 for i in range(n)], dtype=bool).reshape(shp)
+        try:
+            c0 = T.to_compressed(U.Quantity(vals.copy(), "m") if quant else vals.copy(), order=order, mask=mask)
+            T.from_compressed(c0, shp, order=order, mask=mask)
+        except Exception:  # noqa - the earlier use is history only
+            pass
+        mask[...] = new
+        form = "external"
     mfull = np.zeros(shp, dtype=bool) if mask is np.ma.nomask else mask
     bad = []
     if form == "masked":
@@ -182,6 +194,16 @@ def check_accept(pc, cc, pspec, cspec):
         got = False
     except Exception as e:  # noqa
         return want, [("exchange_exception", f"{type(e).__name__}: {str(e)[:80]}")]
+    # history: the report dictionary of an earlier, refused check is handed in again - the decision must not depend on what it holds
+    try:
+        report = {}
+        fm.Info(time=T0, grid=build(cc), units="m", mask=fm.Mask.NONE).accepts(fm.Info(time=T0, grid=build(cc), units="s", mask=fm.Mask.NONE), report)
+        a = fm.Info(time=T0, grid=build(cc), units="m", mask=cmk).accepts(fm.Info(time=T0, grid=build(pc), units="m", mask=pm), {})
+        b = fm.Info(time=T0, grid=build(cc), units="m", mask=cmk).accepts(fm.Info(time=T0, grid=build(pc), units="m", mask=pm), report)
+        if bool(a) != bool(b):
+            return want, [("decision_depends_on_report_dict", f"fresh dict: {a}, dict of an earlier refused check: {b}")]
+    except Exception as e:  # noqa
+        return want, [("accepts_exception", f"{type(e).__name__}: {str(e)[:80]}")]
     if want is None or got == want:
         return want, []
     return want, [("accepted_but_must_be_rejected" if got else "rejected_but_must_be_accepted", f"producer {pspec} consumer {cspec}")]
@@ -245,6 +267,10 @@ def run(tier, seed, agg):
                     if mb != "nomask" and (isinstance(mb, int) and mb % 3 == 1):
                         for form in ("external_i8", "external_u8", "external_i64"):
                             rt.append([list(shp), order, mb, quant, form])
+                    if mb != "nomask" and n <= 4:
+                        for prev in ((2**n - 1) ^ mb, (mb * 5 + 1) % (2**n), 0):
+                            if prev != mb:
+                                rt.append([list(shp), order, mb, quant, f"reused:{prev}"])
     prep, acc = [], []
     for dim in (1, 2, 3):
         for loc in ("CELLS", "POINTS"):
